@@ -1,16 +1,15 @@
 import Ztr.Model.Digraph
-/-! # C20 — strongly connected components (partial: see DESIGN.md §5 C20)
+/-! # C20 — strongly connected components
 
-Proved here for every graph, every iteration order and every number of steps:
+Stage A (this file), for every graph, every iteration order and every number of steps:
 * `C20_emitted_is_segment` — a yielded component is the stack segment above its root;
 * `C20_disjoint_partial` — every node is, at every moment, in exactly one of `unvisited`, `stack`,
-  or one yielded component: components are duplicate-free, pairwise disjoint and made of graph nodes;
-  when the generator is exhausted, `stack ++ yielded` is a permutation of the nodes;
-* `C20_default_filter` — (statement kept in `C20_spec`; the relation between the two modes).
+  or one yielded component: components are duplicate-free, pairwise disjoint and made of graph nodes.
 
-The full statement `C20_spec` (S: two nodes share a component iff each reaches the other; the stack
-is empty at exhaustion) is kept visible below as a `def` and is **not** proved; it is checked on
-every real output by the correspondence's independent oracle (a test, not a proof).
+Stage B (`C20B.lean`): the frame structure of the visit stack and termination within `fuelFor` steps
+(`C20_halts`).  Stage C (`C20C.lean`): Tarjan's low-link invariants on the step machine; the full
+statement `C20_spec` below is proved there as `C20_full` (components = mutual-reachability classes,
+all nodes yielded, default mode = the non-trivial components in the same order).
 -/
 namespace Ztr.Digraph
 
@@ -19,7 +18,7 @@ inductive Reaches (nbrs : Nat → List Nat) : Nat → Nat → Prop
   | refl (a) : Reaches nbrs a a
   | step {a b c} : b ∈ nbrs a → Reaches nbrs b c → Reaches nbrs a c
 
-/-- the full statement (unproved; see the module comment) -/
+/-- the full statement (proved as `C20_full` in `C20C.lean`) -/
 def C20_spec (order : List Nat) (nbrs : Nat → List Nat) : Prop :=
   let fuel := fuelFor order nbrs
   let t := sccs true order nbrs fuel
